@@ -1,9 +1,10 @@
 package h
 
 import (
-	"github.com/truora/minidyn/interpreter"
 	"errors"
+	"github.com/truora/minidyn/interpreter"
 	"sort"
+	"strings"
 
 	"github.com/aws/aws-sdk-go/aws"
 	"github.com/aws/aws-sdk-go/aws/awserr"
@@ -282,6 +283,18 @@ func (b *V1) Put(c, t string, item Item, w WriteArgs) *Resp {
 func (b *V1) Get(c, t string, key Item) *Resp {
 	return guard(func() *Resp {
 		out, err := b.cs[c].GetItem(&dynamodb.GetItemInput{TableName: aws.String(t), Key: ItemToV1(key)})
+		r := b.errResp(err)
+		if err == nil && out != nil {
+			r.Item = optOf(ItemFromV1(out.Item))
+		}
+		return r
+	})
+}
+
+// GetProj issues GetItem with a ProjectionExpression.
+func (b *V1) GetProj(c, t string, key Item, proj []string) *Resp {
+	return guard(func() *Resp {
+		out, err := b.cs[c].GetItem(&dynamodb.GetItemInput{TableName: aws.String(t), Key: ItemToV1(key), ProjectionExpression: aws.String(strings.Join(proj, ", "))})
 		r := b.errResp(err)
 		if err == nil && out != nil {
 			r.Item = optOf(ItemFromV1(out.Item))
